@@ -42,7 +42,14 @@ func execUnionExprUnion(context *exprContext, expr *grammar.Grammar) error {
 		return fmt.Errorf("cannot union non-NodeSet's")
 	}
 
-	context.result = unionCleanup(append(leftNodeSet, rightNodeSet...))
+	// Merge into a new slice: the operands may be node-sets owned by the
+	// caller (variables, earlier results) and must not be appended to or
+	// sorted in place.
+	merged := make(NodeSet, 0, len(leftNodeSet)+len(rightNodeSet))
+	merged = append(merged, leftNodeSet...)
+	merged = append(merged, rightNodeSet...)
+
+	context.result = unionCleanup(merged)
 	return nil
 }
 
